@@ -80,3 +80,10 @@ chk('C09', 'exploration',
     'seg_count and cur_line_number are all recounted from the generator\'s ground truth. Held on the (document, loop id) pairs produced.',
     'Trusted: intended paths / loop instances recorded by vlib/gen_doc.py.',
     'runtime partition monitor against generator ground truth', 'DESIGN.md 5 C09')
+chk('C10', 'exploration',
+    'Model-based runtime checking of the tree editing API: real loop trees from the context reader and a nested-list model built from the generator\'s ground truth receive the same random '
+    'histories (get/set/exists/count/select/first/add_segment/add_loop/add_node/delete_segment/delete_node/copy, valid and garbage paths); return values, the agreement laws between the '
+    'query methods, map-position ordering after insertions, the serialisation after every step and copy isolation (behavioural and by object-identity scan) are asserted. '
+    'Held on the histories produced; every history is replayable from its key.',
+    'Trusted: the model classes in checks/c10.py (MSeg/MLoop, m_select, m_first_segment, insert_idx).',
+    'model-based runtime checking over generated API call histories', 'DESIGN.md 5 C10')
